@@ -194,6 +194,11 @@ fn anti_inverse_impl(mut input: &[Node], asm: &Assembly, for_un: bool) -> Invers
         }
         break;
     }
+    if !curr.is_empty() {
+        // What comes after the anti-inverted part has no inverse,
+        // and leaving it out would not give an inverse
+        return Err(error);
+    }
     let span = post.span().or_else(|| anti.span()).or_else(|| pre.span());
     if !post.is_empty() {
         let span = span.ok_or(Generic)?;
